@@ -5,7 +5,7 @@ replaced by the callee's contract (or inlined when the callee has none / is
 marked inline); every potential panic site yields a safety obligation."""
 import z3
 
-from .model import Model, Val, Ptr, Closure, Unsupported
+from .model import forall, add0, Model, Val, Ptr, Closure, Unsupported
 from . import lib
 from .speceval import SpecEval
 
@@ -132,6 +132,8 @@ class Executor:
         self.fresh_keep = []
         self.code_ids = {}
         self.gen_counter = 0
+        self.gen_alloc = {}
+        self.pending_ref_axioms = []
         self.uses_psum = False
         self.events = []
         self.inline_stack = []
@@ -141,13 +143,75 @@ class Executor:
     def base_heap(self, name, gen=0):
         key = name if gen == 0 else (name, gen)
         if key not in self._base:
-            self._base[key] = z3.Const('%s@%s' % (name, gen), self.m.heap_sort(name))
+            h = z3.Const('%s@%s' % (name, gen), self.m.heap_sort(name))
+            self._base[key] = h
+            if self.heap_is_ref(name):
+                bound = self.entry_alloc if gen == 0 else self.gen_alloc.get(gen, self.entry_alloc)
+                ax = self.ref_axiom(name, h, bound)
+                if ax is not None:
+                    self.axioms.append(ax)
         return self._base[key]
+
+    def heap_is_ref(self, name):
+        """does this heap store references (pointer / map / slice backing array ids)?"""
+        r = self._isref.get(name)
+        if r is not None:
+            return r
+        parts = name.split('|')
+        res = False
+        try:
+            if parts[3] == 'Int':
+                if parts[0] in ('H', 'A'):
+                    T, path = parts[1], parts[2]
+                elif parts[0] == 'MV':
+                    T, path = self.m.types[parts[1]]['elem'], parts[2]
+                else:
+                    T = None
+                if T is not None and T not in ('bigint', 'bigrat'):
+                    T = self.m.uncanon(T)
+                    for (p, srt, tk) in self.m.layout(T):
+                        if p == path and srt == 'Int':
+                            k = self.m.kind(tk)
+                            res = k in ('pointer', 'map') or (k == 'slice' and p.endswith('#arr'))
+        except Exception:
+            res = False
+        self._isref[name] = res
+        return res
+
+    _isref = {}
+
+    def ref_axiom(self, name, heap, bound):
+        """well-typedness of a heap of references: every stored ref denotes an object allocated before `bound`"""
+        srt = heap.sort()
+        r = z3.Int('r!wt')
+        if name.startswith('H|'):
+            v = z3.Select(heap, r)
+            return forall([r], z3.And(v >= 0, v < bound), patterns=[v])
+        if name.startswith('A|'):
+            i = z3.Int('i!wt')
+            v = z3.Select(z3.Select(heap, r), i)
+            return forall([r, i], z3.And(v >= 0, v < bound), patterns=[v])
+        if name.startswith('MV|'):
+            k = z3.Const('k!wt', srt.range().domain())
+            v = z3.Select(z3.Select(heap, r), k)
+            return forall([r, k], z3.And(v >= 0, v < bound), patterns=[v])
+        return None
+
+    def flush_ref_axioms(self, st):
+        for (name, h) in self.pending_ref_axioms:
+            ax = self.ref_axiom(name, h, st.alloc)
+            if ax is not None:
+                st.assume(ax)
+        self.pending_ref_axioms = []
 
     def havoc_everything(self, st, tag):
         """conservative: an imprecise write set; every heap known so far and every heap touched later is fresh"""
         self.gen_counter += 1
         st.gen = self.gen_counter
+        na = self.m.fresh('alloc_h', self.m.Int)
+        st.assume(na >= st.alloc)
+        st.alloc = na
+        self.gen_alloc[st.gen] = na
         for name in list(st.heaps.keys()):
             st.heaps[name] = self.m.fresh(name.replace('|', '_')[:50] + '_' + tag, self.m.heap_sort(name))
         self.notes.append('conservative havoc of all heaps at %s (imprecise write set)' % tag)
@@ -306,6 +370,13 @@ class Executor:
 
     def assume_refs(self, st, v):
         """refs read from memory or received as inputs denote allocated objects"""
+        lay = self.m.layout(v.t)
+        for idx, (path, sort, tk) in enumerate(lay):
+            if path.endswith('#off'):
+                v.leaves[idx] = z3.IntVal(0)   # representation invariant: slices start at index 0 of their array object
+        for idx, ((path, sort, tk), leaf) in enumerate(zip(lay, v.leaves)):
+            if sort == 'Int' and path.endswith('#arr') and self.m.kind(tk) == 'slice' and idx + 2 < len(lay):
+                st.assume(z3.Implies(leaf == 0, v.leaves[idx + 2] == 0))
         for (path, sort, tk), leaf in zip(self.m.layout(v.t), v.leaves):
             if sort == 'Int':
                 k = self.m.kind(tk)
@@ -627,10 +698,10 @@ class Executor:
             if name.startswith('?'):
                 continue
             self.havoc_heap(st, name, 'loop%d' % L['ord'], self.entry_alloc, self.modset)
-        if any(n.startswith('ALLOC') for n in W) or True:
-            na = self.m.fresh('alloc_l%d' % L['ord'], self.m.Int)
-            st.assume(na >= st.alloc)
-            st.alloc = na
+        na = self.m.fresh('alloc_l%d' % L['ord'], self.m.Int)
+        st.assume(na >= st.alloc)
+        st.alloc = na
+        self.flush_ref_axioms(st)
         frame = frame.copy()
         for ins in fn.blocks[h]['instrs']:
             if ins['op'] != 'Phi':
@@ -690,6 +761,8 @@ class Executor:
         Expressed as a lambda overlay, so reads at known old refs reduce syntactically."""
         old = st.heap(name)
         new = self.m.fresh(name.replace('|', '_')[:60] + '_' + tag, old.sort())
+        if self.heap_is_ref(name):
+            self.pending_ref_axioms.append((name, new))
         if modset is not None:
             r = z3.Int('r!frame')
             conds = [r < entry_alloc]
@@ -947,6 +1020,8 @@ class Executor:
         return None
 
     def nil_check(self, st, frame, ins, p):
+        if p.kind != 'obj':
+            return  # element pointers exist only after a successful bounds check
         ref = p.ref
         c = z3.simplify(ref != 0)
         if z3.is_true(c):
@@ -1220,7 +1295,7 @@ class Executor:
             arr, off, ln = x.leaves
             self.safety(st, frame, 'index', ins, z3.And(i >= 0, i < ln), 'index out of range')
             E = self.m.elem(x.t)
-            return Val(ins['t'], [z3.IntVal(-1)], ptr=Ptr('elem', E, '', arr, off + i))
+            return Val(ins['t'], [z3.IntVal(-1)], ptr=Ptr('elem', E, '', arr, add0(off, i)))
         if k == 'pointer' and self.m.kind(self.m.elem(x.t)) == 'array':
             AT = self.m.elem(x.t)
             n = self.m.types[self.m.under(AT)].get('len', 0)
@@ -1258,7 +1333,20 @@ class Executor:
             hi_t = self.operand(st, frame, hi).leaves[0] if hi['k'] != 'none' else ln
             # bounds are against capacity in Go; we only know the length (A2): require hi <= len
             self.safety(st, frame, 'slice', ins, z3.And(0 <= lo_t, lo_t <= hi_t, hi_t <= ln), 'slice bounds out of range')
-            return Val(ins['t'], [arr, z3.simplify(off + lo_t), z3.simplify(hi_t - lo_t)])
+            lo_s = z3.simplify(lo_t)
+            if z3.is_int_value(lo_s) and lo_s.as_long() == 0:
+                return Val(ins['t'], [arr, z3.IntVal(0), z3.simplify(hi_t)])
+            # s[lo:hi] with lo != 0: modelled as a shifted copy (aliasing with s is not modelled, DESIGN A2)
+            E = self.m.elem(x.t)
+            na = self.alloc_ref(st)
+            i = z3.Int('i!sl')
+            for (p, srt, tk) in self.m.layout(E):
+                name = self.aname(E, p, srt)
+                h = st.heap(name)
+                st.heaps[name] = z3.Store(h, na, z3.Lambda([i], z3.Select(z3.Select(h, arr), i + lo_t)))
+                self.written.add(name)
+            self.trusted.add('A2: a slice expression with non-zero low bound is a copy')
+            return Val(ins['t'], [na, z3.IntVal(0), z3.simplify(hi_t - lo_t)])
         if self.m.kind(x.t) == 'pointer' and self.m.kind(self.m.elem(x.t)) == 'array':
             AT = self.m.elem(x.t)
             n = self.m.types[self.m.under(AT)].get('len', 0)
@@ -1560,6 +1648,7 @@ class Executor:
         na = self.m.fresh('alloc_c', self.m.Int)
         st.assume(na >= st.alloc)
         st.alloc = na
+        self.flush_ref_axioms(st)
         # results
         results = []
         for r in f2.results:
